@@ -2818,6 +2818,11 @@ class Transport(threading.Thread, ClosingContextManager):
         ):
             self._log(DEBUG, "Switching on inbound compression ...")
             self.packetizer.set_inbound_compressor(compress_in())
+        else:
+            # A re-key may have negotiated "none" (or a delayed compression
+            # that is not active yet): stop any decompressor left over from
+            # the previous keys.
+            self.packetizer.set_inbound_compressor(None)
         # Reset inbound sequence number if strict mode.
         if self.agreed_on_strict_kex:
             self._log(
@@ -2888,6 +2893,11 @@ class Transport(threading.Thread, ClosingContextManager):
         ):
             self._log(DEBUG, "Switching on outbound compression ...")
             self.packetizer.set_outbound_compressor(compress_out())
+        else:
+            # A re-key may have negotiated "none" (or a delayed compression
+            # that is not active yet): stop any compressor left over from
+            # the previous keys.
+            self.packetizer.set_outbound_compressor(None)
         if not self.packetizer.need_rekey():
             self.in_kex = False
         # If client indicated extension support, send that packet immediately
